@@ -51,6 +51,8 @@ def gen_cases(tier, seed):
         c["storage"] = ["plain", "strided", "plain", "transposed"][c["n"] % 4]
         if c["op"] in ("sigmoid", "tanh", "selu", "softmax", "log_softmax", "bce_with_logits", "cross_entropy") and c["n"] % 3 == 1:
             c["a"] = dict(c["a"], vclass="huge")
+        if c["op"] in ("sigmoid", "tanh") and c["n"] % 3 == 2:
+            c["a"] = dict(c["a"], vclass="tails")
         if c["op"] == "batch_norm" and c["n"] % 3 == 0:
             c["a"] = dict(c["a"], vclass="offset")          # |mean| >> std: float32 must still agree with float64 to single precision
         cases.append(c)
@@ -291,7 +293,14 @@ def run_nn(ns, mon, case):
                         yabs = np.abs(y64)
                 except Exception:
                     yabs = np.abs(y64)
-                if op.name == "batch_norm":
+                if op.name in ("sigmoid", "tanh"):
+                    # component-wise: the float32 result is the exact function of the float32 input perturbed by a few ulps (relative accuracy in the tails)
+                    e_ = float(np.finfo(np.float32).eps)
+                    with np.errstate(all="ignore"):
+                        up_ = np.asarray(nncommon.reference(case, [xs32[0] * (1 + 4 * e_)] + list(xs32[1:])), dtype=np.float64)
+                        dn_ = np.asarray(nncommon.reference(case, [xs32[0] * (1 - 4 * e_)] + list(xs32[1:])), dtype=np.float64)
+                    b = 16 * e_ * np.abs(y64) + np.abs(up_ - y64) + np.abs(dn_ - y64) + float(np.finfo(np.float32).tiny)
+                elif op.name == "batch_norm":
                     # condition scale of (x - mean)/sigma: rounding of x (relative eps) is amplified by |x|/sigma
                     x0 = xs32[0]
                     axes = tuple(i for i in range(x0.ndim) if i != 1)
